@@ -339,14 +339,14 @@ pub enum Op {
     PpttCache { sets: Vec<CacheSet> },
     PpttProc { parent: Option<u32>, id: u32, flags: Vec<u8>, res: Vec<u32>, raw_flags: Option<u32> },
     // RHCT
-    RhctIsa(u16), // string length; content from the static pool
+    RhctIsa(u32), // string length; content from the static pool
     RhctMmu(u8),
     RhctCmo(u8, u8, u8),
     RhctHart { uid: u32, isa: u32, cmos: Vec<u32> },
     // RIMT
     RimtIommu { id: u16, base: Option<u64>, pci: Option<Bdf>, prox: Option<u32>, wires: Option<Vec<(u32, bool, bool, u16)>> },
     RimtRc { id: u16, seg: u16, ats: bool, pri: bool, maps: Option<Vec<IdMap>> },
-    RimtPlat { id: u16, name_len: u16, maps: Option<Vec<IdMap>> },
+    RimtPlat { id: u16, name_len: u32, maps: Option<Vec<IdMap>> },
     // VIOT
     ViotPciIommu(Bdf),
     ViotMmioIommu(u64),
